@@ -63,10 +63,10 @@ def run(ck):
     m3(ck, em, rng, 30 if quick else 500)
 
 
-def blend(prior, st, rel, um, uv, uw, second_moment_squared=True):
-    """Reynolds adaptation computed directly from the statistics (float arithmetic)."""
+def blend(prior, st, rel, um, uv, uw, second_moment_squared=True, alpha=None):
+    """Reynolds adaptation (or the fixed ratio alpha) computed directly from the statistics (float arithmetic)."""
     n = np.asarray(st.n, dtype=float)
-    a = n / (n + rel)
+    a = n / (n + rel) if alpha is None else np.full_like(n, alpha)
     w0, m0, v0 = np.asarray(prior.weights), np.asarray(prior.means), np.asarray(prior.variances)
     w = a * n / st.t + (1 - a) * w0
     w = w / w.sum() if uw else w0
@@ -88,19 +88,28 @@ def real_data(ck, em, rng, count):
         um, uv, uw = sw
         rel = float([0.5, 4.0, 50.0][i % 3])
         st = prior.acc_stats(X)
-        m = gt.fit(gt.new_machine(em, init, 1, None, sw, "map", prior, rel), X)
-        w, mu, var = blend(prior, st, rel, um, uv, uw)
+        alpha = None
+        if i % 4 == 3:
+            # the fixed configured ratio through the estimator: map_relevance_factor=None, map_alpha=a
+            alpha = [0.0, 0.1, 0.25, 0.75, 0.9, 1.0][(i // 4) % 6]
+            chunks = None if i % 8 == 3 else (len(X) // 2, len(X) - len(X) // 2)
+            m = gt.fit(gt.new_machine(em, init, 1, None, sw, "map", prior, None, alpha=alpha), X, chunks)
+            w, mu, var = blend(prior, st, rel, um, uv, uw, alpha=alpha)
+        else:
+            m = gt.fit(gt.new_machine(em, init, 1, None, sw, "map", prior, rel), X)
+            w, mu, var = blend(prior, st, rel, um, uv, uw)
         fl = np.asarray(m.variance_thresholds, dtype=float)
         var = np.maximum(var, fl)
         ck.replayed += 1
         ck.seen(["real", seed])
-        meta = {"seed": seed, "switches(um,uv,uw)": sw, "relevance": rel, "n": np.asarray(st.n).tolist()}
+        meta = {"seed": seed, "switches(um,uv,uw)": sw, "relevance": rel if alpha is None else None, "fixed_ratio": alpha,
+                "n": np.asarray(st.n).tolist()}
         if not (np.allclose(m.weights, w, rtol=1e-9, atol=1e-12) and np.allclose(m.means, mu, rtol=1e-9, atol=1e-12)):
             ck.violation("M2:GmmMStep:MAP.RealData.MeansWeights", {"mechanism": "M2", "meta": meta,
                                                                   "detail": "one-iteration MAP fit differs from the Reynolds blend of prior.acc_stats(X)"})
             continue
         if uv and not np.allclose(m.variances, var, rtol=1e-9, atol=1e-12):
-            w2, mu2, var2 = blend(prior, st, rel, um, uv, uw, second_moment_squared=False)
+            w2, mu2, var2 = blend(prior, st, rel, um, uv, uw, second_moment_squared=False, alpha=alpha)
             rep = {"mechanism": "M2", "meta": meta, "detail": "adapted variances %s, Reynolds blend %s" % (np.asarray(m.variances).tolist(), var.tolist())}
             if np.allclose(m.variances, np.maximum(var2, fl), rtol=1e-9, atol=1e-12):
                 ck.finding("D4", "M2:GmmMStep:MAP.RealData.Variances", rep)
